@@ -1,4 +1,5 @@
 mod alloc;
+mod builder;
 mod check;
 mod game;
 mod mirror;
